@@ -94,7 +94,12 @@ def random_chain(r, coin, nblocks, genesis=False, max_tx=4, script_kinds=None, s
             b = GENESIS[coin]; blocks.append(b); prev = b.hash; created += [(b.txs[0].txid, 0)]; continue
         ntx = r.randrange(1, max_tx + 1); txs = []
         for j in range(ntx):
-            if j == 0: ins = [(b'\x00' * 32, 0xffffffff, struct.pack('<I', h) + rb(r, 3), 0xffffffff)]
+            if j == 0:
+                # coinbase input script: the harness' own counter form, a BIP34 style minimal height push plus a tag, a pool tag pushed first (9..75 bytes), PUSHDATA1 first, or nothing but a number opcode
+                hb = h.to_bytes(max(1, (h.bit_length() + 8) // 8), 'little')
+                sc = r.choice([struct.pack('<I', h) + rb(r, 3)] * 3 + [bytes([len(hb)]) + hb + rb(r, r.randrange(0, 12)), bytes([20]) + rb(r, 20) + struct.pack('<I', h), bytes([r.randrange(9, 76)]) + rb(r, 75) + struct.pack('<I', h),
+                               b'\x4c\x0a' + rb(r, 10) + struct.pack('<I', h), bytes([0x51 + h % 16]) + struct.pack('<I', h)])
+                ins = [(b'\x00' * 32, 0xffffffff, sc, 0xffffffff)]
             else:
                 ins = []
                 for _ in range(r.randrange(1, 4)):
@@ -116,7 +121,7 @@ def random_chain(r, coin, nblocks, genesis=False, max_tx=4, script_kinds=None, s
                 pc = Tx([(b'\x00' * 32, 0xffffffff, rb(r, 5), 1)], [(1, b'\x51')], witness=([[rb(r, 4)]] if r.random() < 0.3 else None))
                 aux = auxpow_section(pc, [rb(r, 32) for _ in range(r.choice([0, 1, 3]))], [rb(r, 32) for _ in range(r.choice([0, 2]))], rb(r, 80), rb(r, 32), (r.getrandbits(32), 0))
         else:
-            ver = r.choice([1, 2, 4, 0x20000000, 0x10101, 0x620102, 0xffffffff])
+            ver = r.choice([1, 2, 3, 4, 0x20000000, 0x3fffe000, 0x10101, 0x620102, 0xffffffff])
         b = Block(prev, txs, version=ver, time=t, bits=r.choice([0x1d00ffff, 0x207fffff]), nonce=r.getrandbits(32), auxpow=aux)
         blocks.append(b); prev = b.hash
     return blocks
